@@ -34,8 +34,8 @@ Proof.
   - apply excl_expand_iff in B. apply excl_gexpand_iff in B; auto. congruence.
 Qed.
 
-Lemma gcompile_compile raw : x_skip_blank F = true -> gcompile F raw = compile raw.
-Proof. intro H. induction raw as [|[| |r] raw IH]; simpl; auto; rewrite ?H, ?IH; auto. Qed.
+Lemma gcompile_compile raw : x_skip_blank F = true -> x_pattern_as F = AsGiven -> gcompile F raw = compile raw.
+Proof. intros H T. induction raw as [|[| |r] raw IH]; simpl; auto; unfold treat; rewrite ?H, ?T, ?IH; auto. Qed.
 
 Lemma same_excl_nil_refl E : same_excl E E. Proof. intro; reflexivity. Qed.
 
@@ -234,8 +234,23 @@ Lemma g_invalid op raw root dest base t : x_invalid_kind F = true -> op_own F op
   In Bad raw -> grun_op F op raw root dest base t = GInvalid.
 Proof. intros K O V B. unfold grun_op. rewrite O, (gcompile_bad raw B), K, V. reflexivity. Qed.
 
-Lemma gcompile_good raw pats : x_skip_blank F = true -> gcompile F raw = Some pats -> forall r, In r pats <-> In (Good r) raw.
-Proof. intros S H. rewrite gcompile_compile in H by exact S. now apply compile_good. Qed.
-Lemma gcompile_goods pats : gcompile F (map Good pats) = Some pats.
+Lemma gcompile_good raw pats : x_skip_blank F = true -> x_pattern_as F = AsGiven ->
+  gcompile F raw = Some pats -> forall r, In r pats <-> In (Good r) raw.
+Proof. intros S T H. rewrite gcompile_compile in H by assumption. now apply compile_good. Qed.
+
+(* blank patterns are skipped and every other pattern is compiled AS GIVEN *)
+Lemma gcompile_goods_raw raw : x_skip_blank F = true -> x_pattern_as F = AsGiven -> ~ In Bad raw ->
+  gcompile F raw = Some (goods raw).
+Proof.
+  intros S T. induction raw as [|[| |r] raw IH]; simpl; intro NB; auto.
+  - exfalso. apply NB. now left.
+  - rewrite S. apply IH. intro; apply NB; now right.
+  - unfold treat. rewrite T, IH; [reflexivity|]. intro; apply NB; now right.
+Qed.
+Lemma gcompile_goods pats : x_pattern_as F = AsGiven -> gcompile F (map Good pats) = Some pats.
+Proof. intro T. induction pats as [|p pats IH]; simpl; auto. unfold treat. now rewrite T, IH. Qed.
+Lemma goods_map_good pats : goods (map Good pats) = pats.
 Proof. induction pats as [|p pats IH]; simpl; auto. now rewrite IH. Qed.
+Lemma bad_not_in_goods pats : ~ In Bad (map Good pats).
+Proof. intro H. apply in_map_iff in H as (x & E & _). discriminate. Qed.
 End Out.
